@@ -179,11 +179,16 @@ class RecSim(Sim):
             h = PublicationHeaders(header)
             if h == PublicationHeaders.TICK: return f"rtick {j} {body['sequence_counter']}"
             if h == PublicationHeaders.STATE: return f"state {j} {self.modes_str(body)}"
+            if h == PublicationHeaders.PROCESS and getattr(self, 'nproc', 0) and body.get('group') == 'app':
+                return f"pev {j} {int(body['name'][1:])} {int(body['state'])} {int(bool(body['expected']))} {int(round(body['now_monotonic'] * UNIT))}"
             return 'none'
         h = NotificationHeaders(header)
         if h == NotificationHeaders.AUTHORIZATION: return f"auth {j} {body['authorization']} {int(round(body['now_monotonic'] * UNIT))}"
         if h == NotificationHeaders.STATE: return f"state {j} {self.modes_str(body)}"
         if h == NotificationHeaders.ALL_INFO and body is None: return f"allinfonone {j}"
+        if h == NotificationHeaders.ALL_INFO and getattr(self, 'nproc', 0):
+            items = [f"{int(x['name'][1:])}:{int(x['state'])}:{int(bool(x['expected']))}:{int(round(x['now_monotonic'] * UNIT))}" for x in body if x.get('group') == 'app']
+            return f"info {j} {','.join(items) if items else '-'}"
         if h == NotificationHeaders.INSTANCE_FAILURE: return f"failure {j}"
         return 'none'
 
